@@ -284,7 +284,7 @@ func init() {
 		if !ok1 || !ok2 {
 			return badOp
 		}
-		return "ok " + b2s(bec.S256().IsOnCurve(x, y))
+		return "ok " + b2s(bec.S256().IsOnCurve(x, y)) + " S=1"
 	}
 	extraOps["jac.decompress"] = func(a []string) string {
 		if len(a) != 2 || (a[1] != "0" && a[1] != "1") {
@@ -298,13 +298,13 @@ func init() {
 		if err != nil {
 			switch err.Error() {
 			case "invalid square root":
-				return "err 1"
+				return "err 1 S=1"
 			case "ybit doesn't match oddness":
-				return "err 2"
+				return "err 2 S=1"
 			}
 			return "err ?"
 		}
-		return "ok " + y.Text(16)
+		return "ok " + y.Text(16) + " S=1"
 	}
 	extraOps["table.get"] = func(a []string) string {
 		if len(a) != 2 {
